@@ -1030,7 +1030,13 @@ impl Net {
                                     break;
                                 }
                             }
-                            _ => break,
+                            Ok(None) => break,
+                            Err(_) => {
+                                if want > 0 {
+                                    note_expired();
+                                }
+                                break;
+                            }
                         }
                     }
                 });
